@@ -249,6 +249,13 @@ def run_one(spec, request, num_workers, chunksize, schedule, fail=(), check_inva
     post = [k for e, k in events if e == "post"]
     if len(set(pre)) != len(pre) or len(set(post)) != len(post) or not set(post) <= set(pre):
         raise Violation("C05-pre-post", f"events {events}")
+    for k in post:
+        if events.index(("pre", k)) > events.index(("post", k)):
+            raise Violation("C05-pre-post", f"posttask of {k!r} before its pretask: {events}")
+    if outcome[0] == "value" and set(pre) != set(post):
+        raise Violation("C05-pre-post", f"tasks with a pretask but no posttask call: {sorted(set(pre) - set(post))}")
+    if not set(runs) <= set(pre) or (outcome[0] == "value" and not set(runs) <= set(post)):
+        raise Violation("C05-pre-post", f"executed tasks {sorted(runs)} without pretask/posttask calls (pre {pre}, post {post})")
     return {"outcome": outcome[0], "choices": choices}
 
 
